@@ -65,6 +65,13 @@ def job(spec, tier):
             t0 = time.time()
             p = sh([os.path.join(verif, "check"), c, "--tier", tier], cwd=verif, env=env)
             lines = [l for l in p.stdout.splitlines() if l.startswith("VIOLATION") or l.startswith("KNOWN-FINDING")]
+            if sid == "BASELINE" and p.returncode != 0:
+                # a baseline that fails in a scratch copy: keep what it printed and its replays (the slot is removed)
+                keep = f"/tmp/par_baseline_{c}_{tier}"
+                shutil.rmtree(keep, ignore_errors=True)
+                os.makedirs(keep, exist_ok=True)
+                open(os.path.join(keep, "stdout.log"), "w").write(p.stdout)
+                shutil.copytree(os.path.join(verif, "replays"), os.path.join(keep, "replays"), dirs_exist_ok=True)
             replays = []
             for l in lines:
                 if "replay=" in l:
